@@ -200,9 +200,6 @@ let c18_judge c obs =
     let exp = if has_body (str m) then ssource (doc_source mt) else "query" in
     if exp = got then "ok"
     else if exp = "err" && got <> "err" then "bad substring-content-type-dispatch media-type=" ^ atom_of_str mt ^ " bound-as=" ^ got
-    else if has_body (str m) && got = ssource (auto_source (str m) cts) then
-      (* the same root cause (K5): the substring tests look at the whole header value, parameters included *)
-      "bad substring-content-type-dispatch media-type=" ^ atom_of_str mt ^ " bound-as=" ^ got
     else "bad wrong-source expected=" ^ exp ^ " got=" ^ got
   | L (A "rt" :: A f :: _), L [A "rt"; A r] -> if r = "ok" then "ok" else "bad roundtrip-" ^ r ^ " format=" ^ f
   | L [A "mal"; A f; body], L [A "mal"; A r] ->
